@@ -4,6 +4,7 @@
    The writer pops batches; within a batch it appends each entry's scatter list to its destination and
    stops scanning at the marker; after each batch every destination is written and its pages returned. *)
 From Coq Require Import ZArith List Bool.
+Require Import Verif.Gen.Gen_log_entry.
 Import ListNotations.
 Local Open Scope Z_scope.
 
@@ -35,11 +36,34 @@ Fixpoint scan (s : wstate) (b : list item) : wstate :=
             stopped := stopped s |} r
   end.
 
-(* for every destination with a non-empty iov: writev, return its pages, clear *)
+(* the kernel rejects a writev of more than UIO_MAXIOV (1024 on Linux) elements with EINVAL and writes
+   nothing; the appender ignores writev's result *)
+Definition KERNEL_UIO_MAXIOV : nat := 1024.
+Definition writev_ok (c : list (page * Z)) : bool := Nat.leb (length c) KERNEL_UIO_MAXIOV.
+
+(* write_use_plain_writev: the iov of one destination goes out in chunks whose size is the regenerated
+   expression `min(IOV_MAX, iov.end() - iter)`; fuel = length of the iov (each chunk is non-empty, else
+   the C++ loop would not advance: then nothing more is written) *)
+Fixpoint chunks (fuel : nat) (v : list (page * Z)) : list (list (page * Z)) :=
+  match fuel with
+  | O => []
+  | S f =>
+    match v with
+    | [] => []
+    | _ => let n := Z.to_nat (writev_chunk_size (Z.of_nat (length v))) in
+           match n with
+           | O => []
+           | _ => firstn n v :: chunks f (skipn n v)
+           end
+    end
+  end.
+
+(* for every destination with a non-empty iov: chunked writev, return ALL its pages, clear *)
 Definition flush (s : wstate) : wstate :=
   let live := filter (fun d => negb (match snd d with [] => true | _ => false end)) (pending s) in
   {| pending := map (fun d => (fst d, [])) (pending s);
-     written := written s ++ live;
+     written := written s ++ flat_map (fun d => map (fun c => (fst d, c))
+                                                  (filter writev_ok (chunks (length (snd d)) (snd d)))) live;
      returned := returned s ++ flat_map (fun d => map fst (snd d)) live;
      stopped := stopped s |}.
 
